@@ -783,8 +783,9 @@ func (l *lexer) scanEscape() rune {
 		ch = l.next()
 	}
 
-	if ch == stopTok {
-		// Reset the string.
+	if ch == stopTok && l.hasError() {
+		// Reset the string. Not at the end of the input, which also stops the
+		// scan but leaves the string complete.
 		l.resetStrBuf()
 	}
 
